@@ -44,18 +44,34 @@ Plan(l, k) ==
            IF l.repo \in {"own", "unused"} THEN No(l, "already")
            ELSE IF l.repo = "none" THEN Yes([l EXCEPT !.repo = "unused"])
            ELSE Yes([l EXCEPT !.repo = "own"])
-\* AS IMPLEMENTED: upgrade.Convert.convert loops `while controldir.needs_format_conversion(format)`; the converter to
-\* development-colo only rewrites the control directory's format marker, so when the repository at that control directory
-\* is older than 2a the condition stays true for ever: the call does not return ("diverges").  Not a C52 clause (nothing is
-\* lost), but the model has to know which calls never finish.
-Diverges(ownRepoFmt, f) == f = "development-colo" /\ ownRepoFmt \in Formats /\ Rank(ownRepoFmt) < 3
-PlanUpgrade(l, f) == IF Rank(f) < Rank(l.fmt) THEN No(l, "refused")
-                     ELSE IF Diverges(IF l.repo \in {"own", "unused"} THEN l.fmt ELSE "none", f) THEN No(l, "diverges")
-                     ELSE Yes([l EXCEPT !.fmt = f])
+(* Upgrade(f) of the control directory at the location, AS IMPLEMENTED.  The components there: an own repository (if
+   any), the branch (unless the location is a lightweight checkout), the working tree (if any).  Their on-disk formats
+   depend on the control-dir format only through its level: repository KnitPack1 / KnitPack6 / 2a, branch 6 / 7 / 7,
+   working tree 4 / 4 / 6 for pack-0.92 / 1.9 / {2a, development-colo}.
+     * going to an OLDER format is refused (BadConversionTarget) when an own repository or a branch-format downgrade is
+       involved; a downgrade that would only concern the working tree is not refused and not done either;
+     * upgrade.Convert.convert loops `while controldir.needs_format_conversion(format)`; when no converter changes what
+       that test looks at, the call never returns ("diverges"): going to development-colo while a component is older
+       than the 2a level (the colo converter only rewrites the control directory's marker), and going from the 2a level
+       "down" to 1.9 at a location that has a working tree but no repository of its own.
+   None of this touches the content (nothing is lost: C52 holds there); the model needs it to know what to expect. *)
+OwnRepo(l) == l.repo \in {"own", "unused"}
+OldComponent(l) ==      \* some component at the location is below the 2a level
+    Rank(l.fmt) < 3 /\ (OwnRepo(l) \/ l.tree \/ (l.br # "ref" /\ l.fmt = "pack-0.92"))
+PlanUpgrade(l, f) ==
+    IF f = "pack-0.92" /\ l.fmt # "pack-0.92" THEN No(l, "refused")
+    ELSE IF Rank(f) < Rank(l.fmt)
+         THEN (IF OwnRepo(l) THEN No(l, "refused") ELSE IF l.tree THEN No(l, "diverges") ELSE Yes(l))
+    ELSE IF f = "development-colo" /\ Rank(l.fmt) < 3
+         THEN (IF OldComponent(l) THEN No(l, "diverges") ELSE Yes([l EXCEPT !.fmt = f]))
+    ELSE Yes([l EXCEPT !.fmt = f])
+\* upgrade of the enclosing shared repository: the repository itself, then (smart_upgrade) every branch that uses it
 PlanUpgradeShared(l, f) ==
     IF Rank(f) < Rank(l.sfmt) THEN No(l, "refused")
-    ELSE IF Diverges(l.sfmt, f) THEN No(l, "diverges")
-    ELSE Yes([l EXCEPT !.sfmt = f, !.fmt = IF l.repo = "shared" /\ Rank(f) >= Rank(l.fmt) THEN f ELSE @])
+    ELSE IF f = "development-colo" /\ Rank(l.sfmt) < 3 THEN No(l, "diverges")
+    ELSE LET l2 == [l EXCEPT !.sfmt = f] IN
+         IF l.repo # "shared" THEN Yes(l2)
+         ELSE LET d == PlanUpgrade(l2, f) IN [out |-> d.out, lay |-> d.lay]
 
 (* what an observer of the location can see of the content *)
 HasTree(l) == l.tree
